@@ -138,6 +138,124 @@ def in_child_job(job):
     return r[1] if r[0] == "ok" else {"crash": r}
 
 
+# ---- histories: several commands by ONE Eups object in one process ---------------------------------------------------
+
+PRELUDES = ("uses_all", "uses_query", "refused_remove", "noaction_remove", "none")
+
+
+def gen_history(rng, g, R):
+    """A who-uses-what computation (or a refused / a -n checked removal) first, then `declare` of a new product whose
+    table requires D, then a checked unforced `remove D` — all by the same Eups object: whatever the object computed
+    before the declaration must not decide the removal."""
+    D = rng.choice(g["products"])
+    top = (D["name"], D["version"], True)
+    has_user = any(top in R.closure((k[0], k[1], True))[0] for k in R.decl if k != (D["name"], D["version"]))
+    prelude = rng.choice(PRELUDES)
+    if prelude == "refused_remove" and not has_user:
+        prelude = "uses_all"            # (it would not be refused)
+    if prelude == "noaction_remove" and has_user:
+        prelude = "uses_query"
+    explicit = rng.random() < 0.5 or "current" not in D.get("tags", [])
+    newp = {"name": "hnew", "version": "1", "tags": ["current"],
+            "deps": [{"k": rng.choice(["req", "req", "opt"]), "n": D["name"], "v": D["version"] if explicit else None, "j": rng.random() < 0.2}]}
+    return {"prelude": prelude, "target": [D["name"], D["version"]], "newp": newp, "had_user": has_user}
+
+
+def run_history(job):
+    graph, h = job
+    n, v = h["target"]
+    root = common.scratch("c14h")
+    devnull = os.open(os.devnull, os.O_WRONLY)
+    os.dup2(devnull, 1)
+    os.dup2(devnull, 2)
+    try:
+        s = L.install(root, graph)
+        start = L.snapshot(s)
+        ecmd = L.cli_eups("remove", [n, v])
+        e = ecmd.createEups()
+        pre = "ok"
+        try:
+            if h["prelude"] == "uses_all":
+                L.quietly(e.uses)
+            elif h["prelude"] == "uses_query":
+                L.quietly(e.uses, n, v)
+            elif h["prelude"] == "refused_remove":
+                L.quietly(e.remove, n, v, False, True)
+            elif h["prelude"] == "noaction_remove":
+                e.noaction = True
+                try:
+                    L.quietly(e.remove, n, v, False, True)
+                finally:
+                    e.noaction = False
+        except BaseException as ex:  # noqa
+            pre = L.err_class(ex)
+        pre_changed = L.snapshot(s) != start
+        np_ = h["newp"]
+        d = common.mkprod(s, np_["name"], np_["version"], L.table_text(np_["deps"]))
+        try:
+            L.quietly(e.declare, np_["name"], np_["version"], d)
+            dec = "ok"
+        except BaseException as ex:  # noqa
+            dec = L.err_class(ex)
+        before, dbb, otherb = L.snapshot(s), L.db_listing(s), L.db_listing(s, others=True)
+        try:
+            L.quietly(e.remove, n, v, False, True)
+            out = "ok"
+        except BaseException as ex:  # noqa
+            out = L.err_class(ex)
+        after, dba, othera = L.snapshot(s), L.db_listing(s), L.db_listing(s, others=True)
+        return {"pre": pre, "pre_changed": pre_changed, "declare": dec, "out": out, "before": before, "after": after,
+                "dbb": dbb, "dba": dba, "otherb": otherb, "othera": othera}
+    finally:
+        common.rmtree(root)
+
+
+def in_child_history(job):
+    r = common.in_child(run_history, job)
+    return r[1] if r[0] == "ok" else {"crash": r}
+
+
+def evaluate_histories(ctx, graphs):
+    L.preimport()
+    jobs = []
+    for g in graphs:
+        g = {k: v for k, v in g.items() if k != "_setups"}
+        jobs.append((g, gen_history(ctx.rng, g, c13.Resolved(g))))
+    impl = parallel_map(in_child_history, jobs, workers=6)
+    answers = ctx.lean.ask_many([{"m": "c14", "graph": {"products": g["products"]}, "declare": h["newp"], "default": None,
+                                  "cases": [h["target"] + [False, True, False, [], False, "version"]]} for g, h in jobs])
+    for (g, h), io_, ans in zip(jobs, impl, answers):
+        if "bad-op" in ans:
+            raise common.InfraError("driver rejected a C14 history: %s" % ans["bad-op"])
+        if "crash" in io_:
+            raise common.InfraError("implementation child failed: %r" % (io_["crash"],))
+        inp = {"graph": g, "history": h}
+        ci, cm = canon_impl(io_), canon_model(ans["answers"][0])
+        ctx.case(key=[g["products"], "history", h], nontrivial=True)
+        ctx.hist("history:%s:%s" % (h["prelude"], io_["out"]))
+        if io_["declare"] != "ok":
+            raise common.InfraError("history: declare failed (%s)" % io_["declare"])
+        if ci != cm:
+            ctx.disagree("state_after_history", inp, ci, cm)
+        unsetup_any = any(d["k"] in ("unreq", "unopt") for p in g["products"] for d in p["deps"])
+        if io_["pre_changed"]:
+            ctx.fail("history_prelude_changes_nothing", inp, ci, cm, note="%s (%s) changed the stack" % (h["prelude"], io_["pre"]), finding=None)
+        if h["prelude"] == "refused_remove" and io_["pre"] != "Refused" and not unsetup_any:
+            ctx.fail("never_still_needed", inp, ci, cm, note="the first removal of a product in use ended %s" % io_["pre"], finding=None)
+        if io_["out"] != "ok" and io_["after"] != io_["before"]:
+            ctx.fail("unchanged_unless_ok", inp, ci, cm, note="outcome %s but the stack changed" % io_["out"], finding=None)
+        if not unsetup_any:
+            # hnew was declared with a table that requires the target: the checked, unforced removal must be refused
+            if io_["out"] == "Refused":
+                ctx.hist("history:refused_after_declare")
+                if not h["had_user"]:
+                    ctx.hist("history:refused_only_because_of_the_new_user")
+            else:
+                ctx.fail("never_still_needed", inp, ci, cm, finding=None,
+                         note="hnew 1, declared by the same Eups object after %s, requires %s %s; its removal ended %s"
+                              % (h["prelude"], h["target"][0], h["target"][1], io_["out"]))
+
+
 def canon_impl(io_):
     dirs = sorted([p.split("/")[1], p.split("/")[2]] for p in io_["after"] if p.startswith("Linux/") and p.count("/") == 3 and p.endswith("/"))
     return {"out": io_["out"], "decl": sorted(io_["dba"]["decl"]), "tags": sorted(io_["dba"]["tags"]), "dirs": dirs}
@@ -413,14 +531,19 @@ def run(ctx):
     evaluate(ctx, [c13.enum_graph(i, 2) for i in ids], all_cases=True)
     n = 45
     done = 0
-    soft = (lambda: time.time() - ctx.t0 > 110) if not big else (lambda: False)
+    soft = (lambda: time.time() - ctx.t0 > 90) if not big else (lambda: False)
     while done < n and not ctx.out_of_time() and not soft():       # a loaded machine: fewer cases rather than a late verdict
         k = min(15, n - done)
         evaluate(ctx, [gen_graph(ctx.rng, wide=ctx.tier == "thorough") for _ in range(k)])
         done += k
+    hg = [gen_graph(ctx.rng) for _ in range(24)] + [c13.enum_graph(i, 2) for i in ids]
+    evaluate_histories(ctx, hg)
     if ctx.evaluations and ctx.distinct_nontrivial < ctx.evaluations * 0.3:
         raise common.InfraError("degenerate distribution: %d non-trivial of %d" % (ctx.distinct_nontrivial, ctx.evaluations))
     h = ctx.histogram
+    for need in ("history:refused_after_declare", "history:refused_only_because_of_the_new_user"):
+        if not h.get(need):
+            raise common.InfraError("degenerate distribution: no case with %s" % need)
     if done >= 30:
         for need in FLOORS:
             if not h.get(need):
@@ -434,6 +557,8 @@ def run(ctx):
         if more < 4955:
             evaluate(ctx, [gen_graph(ctx.rng, wide=ctx.tier == "thorough") for _ in range(40)])
             more += 40
+            if not ctx.out_of_time():
+                evaluate_histories(ctx, [gen_graph(ctx.rng, wide=ctx.tier == "thorough") for _ in range(40)])
         if at < len(rest) and not ctx.out_of_time():
             evaluate(ctx, [c13.enum_graph(i, 2) for i in rest[at:at + 16]], all_cases=True)
             at += 16
@@ -442,6 +567,21 @@ def run(ctx):
 def replay(ctx, rp):
     common.import_eups()
     inp = rp["input"]
+    if "history" in inp:
+        g, h = inp["graph"], inp["history"]
+        io_ = in_child_history((g, h))
+        ans = ctx.lean.ask({"m": "c14", "graph": {"products": g["products"]}, "declare": h["newp"], "default": None,
+                            "cases": [h["target"] + [False, True, False, [], False, "version"]]})
+        ci, cm = canon_impl(io_), canon_model(ans["answers"][0])
+        fails = []
+        unsetup_any = any(d["k"] in ("unreq", "unopt") for p in g["products"] for d in p["deps"])
+        if io_["pre_changed"]:
+            fails.append({"clause": "history_prelude_changes_nothing", "class": None, "detail": io_["pre"]})
+        if io_["out"] != "ok" and io_["after"] != io_["before"]:
+            fails.append({"clause": "unchanged_unless_ok", "class": None, "detail": io_["out"]})
+        if not unsetup_any and io_["out"] != "Refused":
+            fails.append({"clause": "never_still_needed", "class": None, "detail": "removal after the declaration of a user ended %s" % io_["out"]})
+        return {"input": inp, "impl_output": ci, "model_output": cm, "agree": ci == cm, "fails": fails}
     g, case = inp["graph"], inp["case"]
     io_ = in_child_job((g, case))
     ans = ctx.lean.ask(model_request(g, [case]))
